@@ -266,6 +266,30 @@ func c09Graph(r *rand.Rand, variant int) *c09Pool {
 		}
 		ring(o[1 : 1+a])
 		ring(o[1+a:])
+	case 5: // a ring of 4..6 junctions two pairs of which are reverse complements of each other (mirrored designs)
+		p.kind = "mirrored"
+		k := 4 + r.Intn(3)
+		o := c09Overhangs(r, k, g.Ov)
+		o[2] = oracle.MustRevComp(o[0])
+		o[3] = oracle.MustRevComp(o[1])
+		for s := 0; s < k; s++ {
+			add(o[s], o[(s+1)%k])
+		}
+		if r.Intn(2) == 0 {
+			add(o[r.Intn(k)], c09Overhangs(r, k+1, g.Ov)[k]) // a dead end
+		}
+	case 6: // a ring with one or two cassettes flanked by an overhang and its reverse complement: they fit either way round
+		p.kind = "invertible"
+		nc := 1 + r.Intn(2)
+		o := c09Overhangs(r, 2*nc+1, g.Ov)
+		// junction order: o0 -> X1 -> rc(X1) -> o1 -> X2 -> rc(X2) -> o0
+		var js []string
+		for c := 0; c < nc; c++ {
+			js = append(js, o[c], o[nc+c], oracle.MustRevComp(o[nc+c]))
+		}
+		for s := range js {
+			add(js[s], js[(s+1)%len(js)])
+		}
 	case 4: // a ring of 3..5 with a fragment leading back along it, plus 0..2 dead ends
 		p.kind = "back-edge"
 		k := 3 + r.Intn(3)
@@ -665,8 +689,8 @@ func runC09(w *mon.W) {
 			p = c09Designed(r, i%96 == 95)
 		} else {
 			v := i - nDesigned
-			if v > 4 {
-				v = 1 + r.Intn(5)
+			if v > 6 {
+				v = 1 + r.Intn(7)
 			}
 			p = c09Graph(r, v)
 		}
